@@ -24,16 +24,30 @@ func runOtherSuite(suite string, rng *Rng, thorough bool, s *Sink) bool {
 		suiteC17(rng, thorough, s)
 	case "c12cold":
 		suiteCold(s, "reglist.", "append.")
+		suiteColdMany(s, pick(thorough, 20, 4), pick(thorough, 40, 10), "reglist.", "append.")
 	case "c13cold":
 		suiteCold(s, "product.", "type.")
+		suiteColdMany(s, pick(thorough, 1000, 200), pick(thorough, 150, 40), "product.", "type.")
 	case "c14cold":
 		suiteCold(s, "enum.")
+		suiteColdMany(s, pick(thorough, 10, 2), pick(thorough, 40, 10), "enum.")
 	case "c15cold":
 		suiteCold(s, "fieldlist.")
+		suiteColdMany(s, pick(thorough, 40, 10), pick(thorough, 300, 80), "fieldlist.")
+	case "c08cold":
+		suiteCold(s, "ble.")
+		suiteColdMany(s, pick(thorough, 10, 2), pick(thorough, 100, 25), "ble.")
 	default:
 		return runApiSuite(suite, rng, thorough, s)
 	}
 	return true
+}
+
+func pick(thorough bool, a, b int) int {
+	if thorough {
+		return a
+	}
+	return b
 }
 
 // connectApi: a RegisterApi on a reactive device of the given product
